@@ -1099,7 +1099,12 @@ class SymEval:
         if n.id == 'setattr':
             def _setattr(o, a, v):
                 if isinstance(o, SymObj):
-                    self.setattr(o, a, v, p) if hasattr(self, 'setattr') else o.attrs.__setitem__(a, v)
+                    # setattr(obj, 'name', value) is `obj.name = value`: a property setter of the class is called, a plain attribute is stored
+                    sfn, _scls = o.lookup(str(a), setter=True)
+                    if sfn is not None:
+                        self.call_fn(sfn, [o, v], {}, p)
+                    else:
+                        o.attrs[str(a)] = v
                 elif isinstance(o, PyStub):
                     setattr(o, a, v)
                 else:
